@@ -144,6 +144,10 @@ mod platform;
 mod range;
 mod serving;
 
+#[cfg(feature = "verif-hooks")]
+#[doc(hidden)]
+pub mod verif_hooks;
+
 pub use crate::body::Body;
 pub use crate::file::ChunkedReadFile;
 pub use crate::gzip::BodyWriter;
